@@ -206,6 +206,17 @@ func parseHeader(c *Contract, text string) error {
 	case "ghost":
 		// ghost field Type.name gtype
 		f := strings.Fields(rest)
+		if len(f) >= 3 && f[0] == "var" {
+			c.Kind = "ghostvar"
+			c.Name = f[1]
+			te, err := parseTypeString(strings.Join(f[2:], " "))
+			if err != nil {
+				return err
+			}
+			c.GType = &te
+			c.Key = "ghostvar." + c.Name
+			return nil
+		}
 		if len(f) < 3 || f[0] != "field" {
 			return fmt.Errorf("bad ghost header %q", text)
 		}
